@@ -56,6 +56,26 @@ def is_reserved(x):
     return False
 
 
+def seq_arity(lst):
+    """contract of the statement sequencer (proved in suites/c01 selector): 0 statements -> the
+    constant `...`, exactly 1 -> THAT STATEMENT ITSELF (its value is whatever the statement's
+    expression gives: a user object), more -> a list display / the chain-call runner (helper
+    objects, always truthy).  -> 'one' | 'other' | 'unknown' under the current path condition"""
+    from olvc import sym as _sym
+    from olvc.sym import sym_len
+    c = _sym.CTX
+    n = sym_len(list(lst))
+    if isinstance(n, int):
+        return "one" if n == 1 else "other"
+    if c is None:
+        return "unknown"
+    if c.valid(zint(n) == 1)[0]:
+        return "one"
+    if c.valid(zint(n) != 1)[0]:
+        return "other"
+    return "unknown"
+
+
 def normal_run(x):
     """Normal form of a run whose items are the elements of ONE source run S: the run
     variable is S's own, and the direction says how S is traversed.  A loop written
@@ -209,7 +229,7 @@ class Eval:
         if k == "seq":  # expr_wraper(list): every element once, in order
             _, lst = sem
             self.seq(lst)
-            return ("seqresult",)
+            return ("seqresult", seq_arity(lst))
         if k == "R":  # converted child statement(s): opaque effect
             self.emit("stmt", sem[1])
             return ("none",)
